@@ -122,7 +122,7 @@ impl World {
         }
     }
 
-    fn open_mdk(&self, backend: &str, path: &Option<PathBuf>, cfg: &MdkConfig) -> Mdk {
+    pub fn open_mdk(&self, backend: &str, path: &Option<PathBuf>, cfg: &MdkConfig) -> Mdk {
         if backend == "sql" {
             let s = MdkSqliteStorage::new_unencrypted(path.as_ref().unwrap()).expect("open sqlite");
             Mdk::Sql(MDK::builder(s).with_config(cfg.clone()).build())
@@ -142,7 +142,7 @@ impl World {
         fp
     }
 
-    fn fingerprint_of<S: MdkStorageProvider>(&mut self, m: &MDK<S>, gid: &GroupId) -> String {
+    pub fn fingerprint_of<S: MdkStorageProvider>(&mut self, m: &MDK<S>, gid: &GroupId) -> String {
         let group = match m.get_group(gid) {
             Ok(Some(g)) => g,
             _ => return "norecord".into(),
